@@ -141,6 +141,34 @@ func (p *c12) pairChecks(x *res, a, b string, ctx *runner.Ctx) {
 			}
 		}
 	}
+	// documents as the operand of contains() and as members of IN: a list / map holding the number a is found in a
+	// list of documents, and among the members of IN, by a document holding b iff a and b are equal BY VALUE
+	{
+		eq := val.NumEqual(a, b)
+		pd := func(n string) refmodel.Operand { return refmodel.Operand{Kind: "path", Path: refmodel.P(n)} }
+		wV := refmodel.Operand{Kind: "val", Val: ":w"}
+		for fi, form := range []struct {
+			item val.Item
+			cond *refmodel.Cond
+			vals val.Item
+		}{
+			{val.Item{"ll": val.List(val.Str("x"), val.List(val.Num(a), val.Num("50")), val.Num("3"))}, &refmodel.Cond{Op: "contains", Args: []refmodel.Operand{pd("ll"), valV}}, val.Item{":v": val.List(val.Num(b), val.Num("50.0"))}},
+			{val.Item{"ll": val.List(val.Map(map[string]val.V{"q": val.Num(a), "t": val.Str("x")}))}, &refmodel.Cond{Op: "contains", Args: []refmodel.Operand{pd("ll"), valV}}, val.Item{":v": val.Map(map[string]val.V{"q": val.Num(b), "t": val.Str("x")})}},
+			{val.Item{"d": val.List(val.Num(a), val.Str("x"))}, &refmodel.Cond{Op: "in", Args: []refmodel.Operand{pd("d"), wV, valV}}, val.Item{":v": val.List(val.Num(b), val.Str("x")), ":w": val.List(val.Str("other"))}},
+			{val.Item{"d": val.Map(map[string]val.V{"q": val.Map(map[string]val.V{"n": val.Num(a)})})}, &refmodel.Cond{Op: "in", Args: []refmodel.Operand{pd("d"), valV}}, val.Item{":v": val.Map(map[string]val.V{"q": val.Map(map[string]val.V{"n": val.Num(b)})})}},
+			{val.Item{"ll": val.List(val.List(val.NS(a, "77")))}, &refmodel.Cond{Op: "contains", Args: []refmodel.Operand{pd("ll"), valV}}, val.Item{":v": val.List(val.NS("7.70e1", a))}},
+		} {
+			got, _, _, _ := matchDirect(form.cond.Render(map[string]string{}, rrCanon), nil, form.item, form.vals)
+			x.r.Evals++
+			want := eq
+			if fi == 4 {
+				want = true // the same set, its members written differently and in another order
+			}
+			if got != 0 && got != refmodel.R && (got == refmodel.T) != want {
+				x.viol("document-operand-equality"+explainBool(got == refmodel.T, f64(a) == f64(b)), "contains-in", fmt.Sprintf("form %d: a document holding %s and one holding %s are matched by contains()/IN as %s, by value they are equal=%v", fi, a, b, outcomeName(got), want), map[string]interface{}{"a": a, "b": b, "form": fi})
+			}
+		}
+	}
 	// BETWEEN a AND a (degenerate interval) and ordered intervals
 	{
 		lo, hi := a, b
